@@ -34,7 +34,8 @@ pub struct Mutant {
     pub bytes: Vec<u8>,
 }
 
-pub const SUBST: [u32; 9] = [0, 1, 2, 0xFFFF_FFFF, 0x7FFF_FFFE, 0x4000_0000, 0x0041_4141, 0x4141_4141, 0x0001_0000];
+/// the last one is 'A', 0xC3 (the first byte of a two-byte UTF-8 sequence), NUL: a string cut inside a character
+pub const SUBST: [u32; 10] = [0, 1, 2, 0xFFFF_FFFF, 0x7FFF_FFFE, 0x4000_0000, 0x0041_4141, 0x4141_4141, 0x0001_0000, 0x0000_C341];
 
 pub const HOSTILE_OPCODES: [u16; 10] = [0, 9, 0xFFFF, 43, 50, 52, 251, 7, 12, 5];
 
